@@ -141,7 +141,11 @@ class Summaries(object):
             if v is not None:
                 out |= self.origin(v, f, d)
             elif d.kind == "for":
-                out |= self._target_origin(d.ast.target, name, self.elem_origin(d.ast.iter, f, d))
+                pos = self._unpacked_part(d.ast.target, name, d.ast.iter, f)
+                if pos is not None:
+                    out |= pos
+                else:
+                    out |= self._target_origin(d.ast.target, name, self.elem_origin(d.ast.iter, f, d))
             elif d.kind == "with":
                 out.add(("FRESH", ""))
             elif d.kind == "handler":
@@ -175,6 +179,20 @@ class Summaries(object):
                 and isinstance(v.func.value, ast.Name) and v.func.value.id in el:
             return True
         return False
+
+    def _unpacked_part(self, target, name, it, f):
+        """`for a, b in pairs` over a local list that was filled with pairs.append((x, y)): b has the origins of y (tracked by position)"""
+        if isinstance(it, ast.Call) and isinstance(it.func, ast.Name) and it.func.id in ("list", "tuple", "iter", "reversed") and len(it.args) == 1:
+            it = it.args[0]
+        parts = self.__dict__.setdefault("elem_parts", {}).get(f.qualname, {})
+        if not (isinstance(it, ast.Name) and it.id in parts and isinstance(target, (ast.Tuple, ast.List))):
+            return None
+        rows = parts[it.id]
+        for i, el in enumerate(target.elts):
+            if isinstance(el, ast.Name) and el.id == name:
+                if rows.get("arity") == len(target.elts) and i in rows:
+                    return set(rows[i])
+        return None
 
     def _target_origin(self, target, name, eo):
         if isinstance(target, ast.Name):
@@ -593,6 +611,13 @@ class Summaries(object):
                         if isinstance(recv, ast.Name) and m in ("append", "add", "insert") and call.args:
                             a = call.args[-1]
                             parts = a.elts if isinstance(a, ast.Tuple) else [a]
+                            rows = self.__dict__.setdefault("elem_parts", {}).setdefault(f.qualname, {}).setdefault(recv.id, {})
+                            if isinstance(a, ast.Tuple) and rows.get("arity", len(parts)) == len(parts):
+                                rows["arity"] = len(parts)
+                                for i0, x0 in enumerate(parts):
+                                    rows.setdefault(i0, set()).update(o for o in self.origin(x0, f, node) if o[0] != "CONST")
+                            else:
+                                rows["arity"] = -1          # mixed shapes: no positional knowledge
                             for x in parts:
                                 self.elem.setdefault(f.qualname, {}).setdefault(recv.id, set()).update(
                                     o for o in self.origin(x, f, node) if o[0] != "CONST")
